@@ -401,6 +401,30 @@ def run(ctx):
         ml.lineno,
     )
 
+    # text-field delimiters: ';' opens at a line start and the closing ';'
+    # is alone on its line (the reader ignores the rest of that line)
+    rets = [n for n in walk_local(ml) if isinstance(n, ast.Return) and n.value is not None]
+    ctx.need(rets, "_multiline returns")
+    for r in rets:
+        parts = []
+        def flat(e):
+            if isinstance(e, ast.BinOp) and isinstance(e.op, ast.Add):
+                flat(e.left); flat(e.right)
+            elif isinstance(e, ast.JoinedStr):
+                for v in e.values:
+                    parts.append(v.value if isinstance(v, ast.Constant) else None)
+            else:
+                parts.append(e.value if isinstance(e, ast.Constant) and isinstance(e.value, str) else None)
+        flat(r.value)
+        pre = parts[0] if parts and isinstance(parts[0], str) else ""
+        suf = parts[-1] if len(parts) > 1 and isinstance(parts[-1], str) else ""
+        ctx.ob("R1.text-field-delimiters", CIF, "_multiline", f"prefix {pre!r} suffix {suf!r}",
+               pre.startswith("\n") and pre.endswith(";") and pre.strip() == ";"
+               and suf.startswith("\n;") and suf.endswith("\n") and suf.strip() == ";",
+               "a text field must open with ';' at a line start and close with ';' alone on its "
+               "line: the reader drops whatever follows the closing ';' on the same line (next "
+               "cell of a looped row)", r.lineno)
+
     # ---------------- R2 / R3 mapping protocol ---------------------------
     idx = ClassIndex(ctx, [CIF, BCIF, COMP])
     containers = [
@@ -480,6 +504,59 @@ def run(ctx):
                    "keyed dunders: " + ",".join(sorted(keyed)), not missing,
                    f"{cls} prefixes the key in {sorted(keyed)} but not in {missing}",
                    ci.node.lineno)
+    # lazy containers: the parsed element is stored back, equality goes
+    # through __getitem__ (so that parsed and unparsed states compare equal)
+    from ..cfg import CFG
+    n_lazy = 0
+    for cls in sorted(containers):
+        ci = idx.get(cls)
+        f = ci.methods.get("__getitem__")
+        if f is None:
+            continue
+        des = [c for c in calls(f) if isinstance(c.func, ast.Attribute) and c.func.attr == "deserialize"]
+        if not des:
+            continue
+        n_lazy += 1
+        key = param_names(f)[1]
+        g = CFG(f, lambda st: isinstance(st, ast.Raise))
+        des_nodes = [n.id for n in g.nodes if n.ast is not None and n.kind == "stmt"
+                     and any(isinstance(c, ast.Call) and isinstance(c.func, ast.Attribute)
+                             and c.func.attr == "deserialize" for c in ast.walk(n.ast))]
+        stores = {
+            n.id for n in g.nodes
+            if n.ast is not None and isinstance(n.ast, ast.Assign)
+            and any(isinstance(t, ast.Subscript) and (dotted(t.value) or "").startswith("self._")
+                    and isinstance(t.slice, ast.Name) and t.slice.id == key for t in n.ast.targets)
+        }
+        w = None
+        for dn in des_nodes:
+            if dn in stores:
+                continue
+            for b in g.succ[dn]:
+                if g.ekind[(dn, b)] == "exc" or b in stores:
+                    continue
+                w = w or g.path(b, g.exit.id, blocked=stores)
+        ctx.ob("R2.lazy-parse-stored", ci.rel, f"{cls}.__getitem__", "parsed element stored under its key",
+               w is None and bool(des_nodes),
+               f"{cls}.__getitem__ parses the element lazily but returns it on a path that does not "
+               "store it back: edits made through the returned object are lost and the element is "
+               "parsed again", f.lineno)
+        owner, eq = idx.resolve(cls, "__eq__")
+        if eq is not None and owner.name == cls:
+            raw = [n for n in walk_local(eq) if isinstance(n, ast.Compare)
+                   and any(isinstance(x, ast.Attribute) and x.attr.startswith("_")
+                           and isinstance(x.value, ast.Name) and x.value.id in ("self", param_names(eq)[1])
+                           and x.attr not in ("_name",)
+                           for x in ast.walk(n))]
+            via = [n for n in walk_local(eq) if isinstance(n, ast.Compare)
+                   and isinstance(n.left, ast.Subscript) and isinstance(n.left.value, ast.Name)
+                   and n.left.value.id == "self"]
+            ctx.ob("R2.eq-through-getitem", ci.rel, f"{cls}.__eq__", "elements compared via self[key]",
+                   bool(via) and not raw,
+                   f"{cls}.__eq__ compares the raw backing store: a container whose elements are still "
+                   "serialised compares unequal to the same container after a lookup", eq.lineno)
+    ctx.floor("lazy-containers", n_lazy, 3)
+
     # lstrip used to undo a prefix
     n_strip = 0
     for rel in (CIF, BCIF, COMP):
@@ -585,6 +662,14 @@ MUTANTS = [
     elif '"' in value:
         return "'" + value + "'"
 """, "R1.quote-char-absent"),
+    Mutant("multiline-no-final-newline", CIF, 'return "\\n;" + value + "\\n;\\n"', 'return "\\n;" + value + "\\n;"',
+           "R1.text-field-delimiters"),
+    Mutant("lazy-not-stored", CIF,
+           "            self._categories[key] = category\n        return category",
+           "        return category", "R2.lazy-parse-stored", "CIFBlock.__getitem__"),
+    Mutant("eq-raw-elements", COMP,
+           "            if self[key] != other[key]:", "            if self._elements[key] != other._elements[key]:",
+           "R2.eq-through-getitem"),
     Mutant("regress-delitem", BCIF,
            '            return super().__delitem__("_" + key)', '            return super().__setitem__("_" + key)',
            "R2.super-same-dunder"),
